@@ -45,6 +45,51 @@ Definition viol_dup (c : acase) : bool := has_dup (got_values c).               
 Definition viol_thin (c : acase) : bool :=                                            (* a value nobody emplaced *)
   negb (forallb (fun v => existsb (Z.eqb v) (zip_emplaced (a_progs c) (i_results c))) (got_values c)).
 
+(* ---- the implementation's own event order, reconstructed from ITS trace and ITS results only ----
+   IReq   : a requestUpdate CAS step (successful or not -- void function, not observable)
+   IEmp v : an obj_.emplace step of tryEmplaceUpdate(v)   (the k-th ar.tryEmplace.cas step of a thread belongs to its k-th E op)
+   IGet v : the obj_ move step of a getUpdate call that returned v (the k-th ar.getUpdate.load step of a thread belongs to
+            its k-th G op, whose result is the k-th get/getnone entry of the thread's results) *)
+Inductive iev := IReq | IEmp (v : Z) | IGet (v : Z).
+
+Definition get_results (r : list (Z * Z)) : list (option Z) :=
+  flat_map (fun e => if fst e =? r_get then [Some (snd e)] else if fst e =? r_getnone then [None] else []) r.
+
+Definition bump (l : list nat) (t : nat) : list nat := set_nth l t (S (nth t l O)).
+
+Fixpoint impl_events (progs : list (list op)) (results : list (list (Z * Z))) (tr : list (Z * Z))
+         (ncas nload : list nat) : list iev :=
+  match tr with
+  | [] => []
+  | (tz, site) :: r =>
+      let t := Z.to_nat tz in
+      if site =? s_req_cas then IReq :: impl_events progs results r ncas nload
+      else if site =? s_emp_cas then impl_events progs results r (bump ncas t) nload
+      else if site =? s_get_load then impl_events progs results r ncas (bump nload t)
+      else if site =? s_emp_emplace then
+        IEmp (nth (pred (nth t ncas O)) (flat_map op_tags (nth t progs [])) 0) :: impl_events progs results r ncas nload
+      else if site =? s_get_move then
+        match nth (pred (nth t nload O)) (get_results (nth t results [])) None with
+        | Some v => IGet v :: impl_events progs results r ncas nload
+        | None => impl_events progs results r ncas nload
+        end
+      else impl_events progs results r ncas nload
+  end.
+
+(* the three clauses of the property on that event order: an emplacement needs a request step since the previous
+   emplacement; a value-returning getUpdate needs the emplacement of exactly that value as the latest emplace/get event *)
+Fixpoint events_ok (evs : list iev) (req_pending : bool) (avail : option Z) : bool :=
+  match evs with
+  | [] => true
+  | IReq :: r => events_ok r true avail
+  | IEmp v :: r => req_pending && events_ok r false (Some v)
+  | IGet v :: r => (match avail with Some x => x =? v | None => false end) && events_ok r req_pending None
+  end.
+
+Definition viol_order (c : acase) : bool :=
+  let z := map (fun _ => O) (a_progs c) in
+  negb (events_ok (impl_events (a_progs c) (i_results c) (i_trace c) z z) false None).
+
 (* domain of the known finding: more than one consumer thread *)
 Definition known_domain (c : acase) : bool := negb (single_consumer (a_progs c)).
 
@@ -55,8 +100,10 @@ Definition agrees (c : acase) : bool :=
   list_eqb (list_eqb zpair_eqb) (map (fun th => rev (res th)) (threads s)) (i_results c).
 
 (* 0 agree & property holds; 1 differ, property holds; 2 property fails outside the known domain;
-   4 double delivery inside the known domain, predicted by the model; 5 the same but the model run differs *)
+   4 property fails inside the known domain (several consumers) exactly as the model predicts; 5 the same but the model run differs;
+   6 = 4 with a value returned twice (the registered witness kind) *)
 Definition judge_ar (c : acase) : Z :=
   if viol_thin c then 2
-  else if viol_dup c then (if known_domain c then (if agrees c then 4 else 5) else 2)
+  else if viol_dup c || viol_order c then
+    (if known_domain c then (if agrees c then (if viol_dup c then 6 else 4) else 5) else 2)
   else if agrees c then 0 else 1.
